@@ -1,6 +1,6 @@
 SPECIFICATION Spec
-CONSTANTS Wirings = {"plain", "tunnel"} Kinds = {"basic", "cache", "tunnel"} MaxTasks = 2 MaxCaches = 1 MaxSocks = 1 MaxBoot = 1 MaxTry = 1 MaxXTask = 1 StoreAtOpen = TRUE
-          InitAwaited = FALSE UnloadRemovesPending = TRUE
+CONSTANTS Wirings = {"plain", "tunnel"} Kinds = {"tunnel"} MaxTasks = 2 MaxCaches = 1 MaxSocks = 1 MaxBoot = 1 MaxTry = 1 MaxXTask = 1 StoreAtOpen = FALSE
+          InitAwaited = TRUE UnloadRemovesPending = TRUE
           WrapperForwardsRemove = TRUE CryptoListenerRemoved = TRUE RemovalAwaited = TRUE
 INVARIANT TypeOK
 INVARIANT LoadedReachable
